@@ -2,7 +2,7 @@
    fails to compile if Props/C12.v is weakened, renamed or given other hypotheses. *)
 From Coq Require Import SpecFloat.
 Require Import Base Value Float PrintOptions ParseOptions Reader Scan Num Parser DatumProofs DepthProofs.
-Require Import ReaderProofs TokenProofs RoundtripProofs TriviaProofs ElispRoundtrip ElispTrivia.
+Require Import ReaderProofs TokenProofs RoundtripProofs TriviaProofs ElispRoundtrip ElispTrivia PositionProofs SpanProofs.
 Require Import Lexpr.Props.C12.
 
 Check (C12_four_ways :
@@ -66,6 +66,14 @@ Check (C12_trivia_nonvacuous :
   ltxt (fun _ => []) c12_layout = s2b "( a ;c" ++ [10; 9] ++ s2b "(b . " ++ [13] ++ s2b "c" ++ [12] ++ s2b ")(d) #(1" ++ [10] ++ s2b "2 ) )" /\
   forall k, from_trait default_ro (fun _ => true) true dec_to_f64 k
               (bytes_events ([9] ++ ltxt (fun _ => []) c12_layout ++ s2b " ; end")) = POk c12_value).
+
+Check (C12_items_consume_input :
+  forall W ro alpha fast std_parse fuel s, inv W (rd s) ->
+  match next_value ro alpha fast std_parse fuel s with
+  | (POk (Some v), s') => inv W (rd s') /\ pos_lt (rpos (rd s)) (rpos (rd s'))
+  | (POk None, s') => inv W (rd s')
+  | (PErr _, _) => True
+  end).
 
 Check (C12_closer_consumed :
   let inp := bytes_events (s2b "1 2 ) 3") in
